@@ -8,6 +8,11 @@
 (*   {"ev":"fieldbyte","vals":[256 x 0/1]}            validHeaderFieldByte(b) *)
 (*   {"ev":"canon","s":[..],"out":[..]}               normalizeHeaderKey      *)
 (*   {"ev":"html","s":[..],"out":[..]}                AppendHTMLEscape        *)
+(*   {"ev":"lower","s":[..],"out":[..]}               lowercaseBytes / URI    *)
+(*                                                    host on a byte STRING   *)
+(* ("canon" lines also carry the stored form of a header name observed       *)
+(* through any entry point of the header API: string- or []byte-keyed        *)
+(* Set/Add, AppendNormalizedHeaderKey, wire parse; "via" names the entry.)    *)
 (* A line is consumed only if the observation equals the reference, e.g. for  *)
 (* a table   \A b \in 0..255 : vals[b+1] = Pred(name, b).                      *)
 EXTENDS ByteClass, Json, TLCExt
@@ -25,9 +30,11 @@ TFieldByte == IsEvent("fieldbyte") /\ Len(E.vals) = 256
                 /\ \A b \in Byte : (E.vals[b + 1] = 1) <=> ValidHeaderFieldByte(b)
 TCanon == IsEvent("canon") /\ E.out = Canon(E.s)
 THtml == IsEvent("html") /\ E.out = HtmlEscape(E.s)
+\* lower-casing a byte string = ToLower on every byte, nothing else changes
+TLower == IsEvent("lower") /\ E.out = [i \in 1..Len(E.s) |-> ToLower(E.s[i])]
 
 TraceInit == l = 1
-TraceNext == TInit \/ TTable \/ TFieldByte \/ TCanon \/ THtml
+TraceNext == TInit \/ TTable \/ TFieldByte \/ TCanon \/ THtml \/ TLower
 TraceSpec == TraceInit /\ [][TraceNext]_l
 
 TraceAccepted ==
